@@ -378,8 +378,22 @@ Definition spec_topic (delim sc op pfx : str) (vals : list str) : str :=
 
 (** ** the inputs on which every language's template is well behaved *)
 Definition no_char (c : Z) (s : str) : bool := forallb (fun x => negb (x =? c)) s.
-(** Identifier of the grammar: letters, digits, '_' and '.', not empty *)
-Definition name_ok (s : str) : bool := negb (null s) && forallb (fun c => is_word c || (c =? 46)) s.
+(** scope / operation name: an Identifier of the grammar without '.', i.e. letters, digits and
+    '_', not empty (a dotted name never yields a compilable class or method name) *)
+Definition name_ok (s : str) : bool := negb (null s) && forallb is_word s.
+
+(** prefix variable names that compile and mean what they should: distinct, different from the
+    other parameters, from the locals op / prefix / topic (Python rebinds prefix and topic
+    harmlessly, but uses the operation name for a variable called op) and from the delimiter
+    constant they would shadow *)
+Definition vars_safe (l : lang) (sd : side) (op : str) (vars : list str) : bool :=
+  params_ok l sd op vars && negb (mem n_op vars) &&
+  match l with
+  | Go => negb (mem n_prefix vars) && negb (mem n_topic vars)
+  | Java => negb (mem n_prefix vars) && negb (mem n_topic vars) && negb (mem n_DELIMITER vars)
+  | Dart => negb (mem n_prefix vars) && negb (mem n_topic vars) && negb (mem n_delimiter vars)
+  | Py => negb (mem n_self_DELIMITER vars)
+  end.
 
 (** Dart's $name form: the character after a variable must not continue the identifier *)
 Fixpoint dart_follow (g : list seg) (after : str) : bool :=
